@@ -22,7 +22,10 @@ AE_HEADER = {'absent': None, 'gzip': 'gzip', 'gzip_q0': 'gzip;q=0', 'star': '*',
              'deflate_gzip_q05': 'deflate, gzip;q=0.5', 'gzip_q1_identity_q0': 'gzip;q=1.0, identity;q=0'}
 BIG = (b'compressible line of text 0123456789\n' * 3000)
 RND = bytes(random.Random(7).getrandbits(8) for _ in range(100000))
-SCENARIOS = ['ok200vary', 'ok200prof', 'ok200', 'ok200big', 'ok200random', 'ok200empty', 'ctx', 'ctxbig', 'head', 'redirect', 'raise404', 'ret404',
+PREGZ = gzip.compress(b'pre-compressed by the application, very repetitive ' * 20000, 6)
+BADCOOKIES = {'ok200cookie1': 'clastic_cookie=QUJD?k\xe9=InYi', 'ok200cookie2': 'clastic_cookie=QUJ?a=InYi',
+              'ok200cookie3': 'clastic_cookie=not-a-cookie-at-all; other=1'}
+SCENARIOS = ['ok200pregz', 'ok200cookie1', 'ok200cookie2', 'ok200cookie3', 'ok200vary', 'ok200prof', 'ok200', 'ok200big', 'ok200random', 'ok200empty', 'ctx', 'ctxbig', 'head', 'redirect', 'raise404', 'ret404',
              'nb404', 'unknown404', 'wrong405', 'raise503', 'ret418', 'uncaught500']
 
 
@@ -64,7 +67,12 @@ def build(stack):
         r = Response(BIG, mimetype='text/plain')
         r.vary.add('Cookie')           # the application sets its own Vary
         return r
+    def pregz():
+        r = Response(PREGZ, mimetype='text/plain')
+        r.headers['Content-Encoding'] = 'gzip'      # the application serves a pre-compressed payload
+        return r
     routes = [('/ok200', lambda: Response(b'small body', mimetype='text/plain')),
+              ('/ok200pregz', pregz),
               ('/ok200vary', with_vary),
               ('/ok200prof', lambda: Response(b'profiler not triggered', mimetype='text/plain')),
               ('/ok200big', lambda: Response(BIG, mimetype='text/plain')),
@@ -87,11 +95,15 @@ def build(stack):
 def request(app, scen, ae):
     from werkzeug.test import create_environ, run_wsgi_app
     path = '/' + scen if scen != 'unknown404' else '/no/such/url'
+    if scen in BADCOOKIES:
+        path = '/ok200'
     method = 'HEAD' if scen == 'head' else 'GET'
     # a sort key for the profiler WITHOUT its trigger parameter: the profiler must stay out of the way
     env = create_environ(path, method=method, query_string='_prof_sort=calls' if scen == 'ok200prof' else None)
     if AE_HEADER[ae] is not None:
         env['HTTP_ACCEPT_ENCODING'] = AE_HEADER[ae]
+    if scen in BADCOOKIES:
+        env['HTTP_COOKIE'] = BADCOOKIES[scen]       # a client presenting a malformed / foreign cookie
     try:
         app_iter, status, headers = run_wsgi_app(app, env)
         body = b''.join(app_iter)
@@ -111,16 +123,24 @@ def norm_body(b):
 def observe(base, resp, stack):
     h = resp['headers']
     ce = h.get('content-encoding', '')
-    encoded = 'gzip' in ce.lower()
-    decoded = resp['body']
+    base_ce = base['headers'].get('content-encoding', '')
     ok_decode = True
-    if encoded:
-        try:
-            decoded = gzip.GzipFile(fileobj=io.BytesIO(resp['body'])).read()
-        except Exception:  # noqa
-            ok_decode = False
+
+    def decode(body, enc):
+        # what the client ends up with: one decoding step per listed coding
+        for _ in [c for c in enc.lower().split(',') if c.strip() == 'gzip']:
+            body = gzip.GzipFile(fileobj=io.BytesIO(body)).read()
+        return body
+    try:
+        decoded = decode(resp['body'], ce)
+        base_decoded = decode(base['body'], base_ce)
+    except Exception:  # noqa
+        ok_decode = False
+        decoded = base_decoded = None
+    # "encoded" = encoded BY THE MIDDLEWARE (a payload the application pre-compressed is the application's business)
+    encoded = 'gzip' in ce.lower() and 'gzip' not in base_ce.lower()
     cl = h.get('content-length')
-    return {'status': resp['status'], 'base_status': base['status'], 'decoded_same': ok_decode and norm_body(decoded) == norm_body(base['body']),
+    return {'status': resp['status'], 'base_status': base['status'], 'decoded_same': ok_decode and norm_body(decoded) == norm_body(base_decoded),
             'encoded': encoded, 'ce_gzip': ce.strip().lower() == 'gzip',
             'cl_matches': cl is not None and int(cl) == len(resp['body']),
             'vary_ae': 'accept-encoding' in h.get('vary', '').lower(), 'has_gzip': 'gzip' in stack}
